@@ -782,12 +782,14 @@ class RedlineEngine:
             anchor_run = active_mapper.get_insertion_anchor(start_idx)
 
             # If the insertion point opens a paragraph, the preceding run (if any) belongs to the previous
-            # paragraph: anchor inline text on the first run of the paragraph it was addressed to.
+            # paragraph: anchor inline text on the first run of the paragraph it was addressed to. Text with line
+            # breaks keeps the preceding run as its anchor - unless that run lies in another story (the insertion
+            # point opens a header, the body or a footer): new text never goes into a story it was not addressed to.
             insert_before = start_idx == 0
             inline_text = edit.new_text or ""
             is_inline = not re.search(r"[\r\n]", inline_text) and self._parse_markdown_style(inline_text)[1] is None
             here = next((s for s in active_mapper.spans if s.start <= start_idx < s.end), None)
-            if not insert_before and is_inline and here is not None and here.paragraph is not None:
+            if not insert_before and here is not None and here.paragraph is not None:
                 anchor_p = None
                 if anchor_run is not None:
                     anchor_parent = anchor_run._element.getparent()
@@ -796,7 +798,10 @@ class RedlineEngine:
                         if anchor_parent is None or anchor_parent.tag == qn("w:p")
                         else anchor_parent.getparent()
                     )
-                if anchor_p is not here.paragraph._p:
+                other_story = anchor_p is None or (
+                    anchor_p.getroottree().getroot() is not here.paragraph._p.getroottree().getroot()
+                )
+                if anchor_p is not here.paragraph._p and (is_inline or other_story):
                     following = next(
                         (
                             s
